@@ -118,7 +118,7 @@ fn c12_extra<D: Dom>(ctx: &Ctx<D>, st: &mut Stats, rec: &Recorder) {
 
 fn c12_dom<D: Dom>(cx: &RunCtx) {
     let k = [Kind::Value, Kind::MalformedOk, Kind::WellFormedErr, Kind::Relation];
-    let d = if cx.tier == Tier::Quick { 5 } else { 7 };
+    let d = if cx.tier == Tier::Quick { 6 } else { 7 };
     tok_run::<D>(cx, "E-TOK Σ_juxt", sigma_juxt(D::EV), d, 4, ONLY_DEFAULT, &k, Some(&c12_extra::<D>), 2400);
 }
 
